@@ -6,6 +6,52 @@ from harness import authsim, impl, fw
 ALT_CRED_SLOT = 2
 
 
+class Cycler:
+    """Stands in for the random generator inside a catalogue entry: successive applications of one entry walk through its variants in order
+    (choice -> the next element, random() -> a fixed cycle of values), so that WHICH variants a run covers does not depend on the random stream."""
+    FRACTIONS = [0.05, 0.95, 0.55, 0.35, 0.75, 0.65, 0.15, 0.45]
+
+    def __init__(self, name):
+        import zlib
+        self.n = 0
+        self.k = 0
+        self.maxlen = 1
+        self.r = random.Random(zlib.crc32(name.encode()))
+
+    def choice(self, seq):
+        seq = list(seq)
+        self.maxlen = max(self.maxlen, len(seq))
+        return seq[self.n % len(seq)]
+
+    def random(self):
+        self.k += 1
+        return self.FRACTIONS[(self.n + self.k - 1) % len(self.FRACTIONS)]
+
+    def __getattr__(self, a):            # randbytes, randrange, sample, shuffle, ...
+        return getattr(self.r, a)
+
+
+_CYCLERS = {}
+
+
+def cycler(name):
+    return _CYCLERS.setdefault(name, Cycler(name))
+
+
+def apply(table, name, s, scope=""):
+    """Apply catalogue entry `name` of `table` to scenario s with the entry's own cycling generator."""
+    c = cycler(scope + name)
+    c.k = 0
+    table[name](s, c)
+    c.n += 1
+    return c
+
+
+def variants_left(name, scope="", cap=16):
+    c = cycler(scope + name)
+    return c.n < min(max(c.maxlen, len(Cycler.FRACTIONS) if c.k else 1), cap)
+
+
 class Scn:
     """Parameters of one authentication ceremony; build() -> (policy, assertion)."""
 
